@@ -5,3 +5,4 @@ import Pw.Props.C10
 import Pw.Props.C03
 import Pw.Props.C08
 import Pw.Props.C05
+import Pw.Props.C06
